@@ -427,7 +427,7 @@ def run_recorded(engine, choices, tier, run_index, wall_cap, prefix=None, verif_
         finally:
             os._exit(0)
 
-    p = ctx.Process(target=target, daemon=True)
+    p = ctx.Process(target=target, daemon=False)  # non-daemonic: the code under test may start real worker processes
     p.start()
     child.close()
     out = None
